@@ -45,6 +45,102 @@ def sig_indices(node):
     return "%".join(parts), idx
 
 
+
+def local_callee(call):
+    """Routine that defines the callee when it is in the same Container and the routine symbol is local to
+    it (not imported, not unresolved); else None."""
+    from psyclone.psyir import nodes as N
+    from psyclone.psyir.symbols import DefaultModuleInterface
+    if not isinstance(call.routine, N.Reference):
+        return None
+    if not isinstance(call.routine.symbol.interface, DefaultModuleInterface):
+        return None
+    cont = call.ancestor(N.Container)
+    if cont is None:
+        return None
+    name = call.routine.name.lower()
+    for r in cont.walk(N.Routine):
+        if r.name.lower() == name:
+            return r
+    return None
+
+
+def local_mods(call):
+    """'n' or the bit mask of the argument positions whose dummy (of the locally defined callee) is not INTENT(IN)"""
+    from psyclone.psyir.symbols import ArgumentInterface
+    r = local_callee(call)
+    if r is None:
+        return "n"
+    dummies = r.symbol_table.argument_list
+    mask = 0
+    for pos, kw in enumerate(call.argument_names):
+        if kw:
+            m = [d for d in dummies if d.name.lower() == kw.lower()]
+        else:
+            m = dummies[pos:pos + 1]
+        if m and m[0].interface.access != ArgumentInterface.Access.READ:
+            mask |= 1 << pos
+    return mask
+
+
+def codeblock_names(node):
+    """(may_read, may_define) data-variable names of a CodeBlock, from its fparser2 parse tree: every Name that
+    resolves to a DataSymbol is read unless all its occurrences are bare definition targets (assignment LHS, READ
+    input items); defined: assignment targets, READ items, actual arguments of CALLs, ALLOCATE objects."""
+    from fparser.two import Fortran2003 as F
+    from fparser.two.utils import walk
+    from psyclone.psyir.symbols import DataSymbol
+    total, bare_def, defs = {}, {}, set()
+
+    def names_in(x):
+        if x is None:
+            return []
+        return [n.string.lower() for n in walk(x, F.Name)]
+
+    def target(x):
+        if isinstance(x, F.Name):
+            bare_def[x.string.lower()] = bare_def.get(x.string.lower(), 0) + 1
+            defs.add(x.string.lower())
+        elif x is not None:
+            ns = names_in(x)
+            if ns:
+                defs.add(ns[0])
+
+    for ast in node.get_ast_nodes:
+        for n in names_in(ast):
+            total[n] = total.get(n, 0) + 1
+        for a in walk(ast, F.Assignment_Stmt):
+            target(a.items[0])
+        for r in walk(ast, F.Read_Stmt):
+            items = r.items[2]
+            if items is not None:
+                for it in (items.items if hasattr(items, "items") and not isinstance(items, F.Name) and
+                           type(items).__name__.endswith("_List") else [items]):
+                    target(it)
+        for c in walk(ast, F.Call_Stmt):
+            args = c.items[1]
+            if args is not None:
+                for it in (args.items if type(args).__name__.endswith("_List") else [args]):
+                    if isinstance(it, (F.Name, F.Part_Ref, F.Data_Ref)):
+                        ns = names_in(it)
+                        if ns:
+                            defs.add(ns[0])
+        for al in walk(ast, (F.Allocate_Stmt, F.Deallocate_Stmt, F.Nullify_Stmt)):
+            for it in walk(al, (F.Allocation, F.Allocate_Object_List, F.Pointer_Object_List)):
+                ns = names_in(it)
+                if ns:
+                    defs.add(ns[0])
+
+    def is_data(n):
+        try:
+            return isinstance(node.scope.symbol_table.lookup(n), DataSymbol)
+        except KeyError:
+            return False
+    rd = {n for n, k in total.items() if is_data(n) and bare_def.get(n, 0) < k}
+    wr = {n for n in defs if is_data(n)}
+    return rd, wr
+
+
 class Exporter:
     """One exporter per statement: keeps the name table, call-site table and whether the statement can be
     executed by the tracing semantics (`dynamic`)."""
@@ -146,7 +242,19 @@ class Exporter:
         if type(node) is N.Call:
             if not isinstance(node.parent, N.Schedule):
                 raise Unsupported("call statement outside a Schedule")
-            return ["call", 1 if node.is_pure else 0, self.site(node)] + [self.expr(a) for a in node.arguments]
+            return (["call", 1 if node.is_pure else 0, local_mods(node), self.site(node)]
+                    + [self.expr(a) for a in node.arguments])
+        if isinstance(node, N.WhileLoop):
+            return ["while", self.expr(node.condition), self.stmts(node.loop_body.children)]
+        if isinstance(node, N.Return):
+            return ["ret"]
+        if isinstance(node, N.CodeBlock):
+            from fparser.two import Fortran2003 as F
+            from fparser.two.utils import walk
+            rd, wr = codeblock_names(node)
+            names = [self.names.id(n.string.lower()) for n in walk(node.get_ast_nodes, F.Name)]
+            return ["opaque", self.site(node), names, sorted(self.names.id(n) for n in rd),
+                    sorted(self.names.id(n) for n in wr)]
         raise Unsupported(type(node).__name__)
 
 
@@ -320,6 +428,16 @@ def may_sets(node):
             intrinsic_stmt(n)
         elif type(n) is N.Call:
             call_effects(n, statement=True)
+        elif isinstance(n, N.WhileLoop):
+            reads_of(n.condition)
+            for c in n.loop_body.children:
+                stmt(c)
+        elif isinstance(n, N.Return):
+            pass
+        elif isinstance(n, N.CodeBlock):
+            r, w = codeblock_names(n)
+            rd.update(r)
+            wr.update(w)
         else:
             raise Unsupported(type(n).__name__)
 
@@ -334,6 +452,9 @@ def site_masks(sites):
     out = []
     for k, call in enumerate(sites):
         mask = 0
+        if isinstance(call, N.CodeBlock):
+            out.append([k, 2 ** 62 - 1])
+            continue
         if isinstance(call, N.IntrinsicCall):
             pos_mod, kw_mod = STD_MODIFIES.get(call.intrinsic.name.upper(), ("all", set()))
             npos = 0
